@@ -83,6 +83,7 @@ class Driver:
         self.features = set()
         self.record_class = record_class
         self.mix_classes = False        # C06/C10: per-oid classes incl. resolvable ones
+        self.undoable_from = 0          # demo storages: only transactions of the changes layer can be undone
         self.equal_p = 0.15
         self.classes = {}
 
@@ -208,7 +209,7 @@ class Driver:
         return 'restore(%d recs,%r)' % (nrec, status)
 
     def op_undo(self, ntx=1, strict=True):
-        cands = [x for x in self.spec.txns if x.status == ' ']
+        cands = [x for x in self.spec.txns[self.undoable_from:] if x.status == ' ']
         if not cands:
             return None
         us = self.rnd.sample(cands[-5:], min(ntx, len(cands[-5:])))
